@@ -92,6 +92,12 @@ void LP::del_rows(const std::vector<int> &d) {
 	for (size_t i = 0; i < rows.size(); i++) if (!ds.count((int)i)) nr.push_back(rows[i]);
 	rows.swap(nr);
 }
+bool LP::moderate(int bits) const {
+	auto ok = [&](const Q &v) { return mpz_sizeinbase(v.get_num().get_mpz_t(), 2) <= (size_t)bits && mpz_sizeinbase(v.get_den().get_mpz_t(), 2) <= (size_t)bits; };
+	for (auto &c : cols) { if (!ok(c.obj)) return false; if (c.lo.fin() && !ok(c.lo.v)) return false; if (c.up.fin() && !ok(c.up.v)) return false; }
+	for (auto &r : rows) { if (!ok(r.rhs) || !ok(r.range)) return false; for (auto &kv : r.coef) if (!ok(kv.second)) return false; }
+	return true;
+}
 bool LP::well_formed(std::string *why) const {
 	for (auto &c : cols) if (cmp(c.lo, c.up) > 0) { if (why) *why = "lower>upper " + c.name; return false; }
 	for (auto &r : rows) if (r.sense == 'R' && r.range < 0) { if (why) *why = "range<0 " + r.name; return false; }
